@@ -486,6 +486,10 @@ func (r *runner) finish() *mismatch {
 				return &mismatch{"reopen.probeCommit", err.Error()}
 			}
 			r.stats["probe"]++
+			// the same two assertions after DB.Load of a full backup into a fresh directory
+			if m := r.loadProbe(); m != nil {
+				return m
+			}
 		}
 	}
 	if r.opt.scan && !r.c.inmem {
@@ -522,5 +526,37 @@ func (r *runner) finish() *mismatch {
 		}
 	}
 	r.caseExtra = extra
+	return nil
+}
+
+// loadProbe backs the database up, loads the backup into a fresh on-disk database and requires that
+// the destination's next timestamp exceeds every loaded version and that a new commit reads back.
+func (r *runner) loadProbe() *mismatch {
+	var buf bytes.Buffer
+	if _, err := r.db.Backup(&buf, 0); err != nil {
+		return &mismatch{"load.backup", err.Error()}
+	}
+	dir, err := os.MkdirTemp("", "kvreplay-load-")
+	if err != nil {
+		vh.Fatalf("mkdtemp: %v", err)
+	}
+	defer os.RemoveAll(dir)
+	dst, err := badger.Open(vh.SmallOptions(dir))
+	if err != nil {
+		return &mismatch{"load.open", err.Error()}
+	}
+	defer dst.Close()
+	if err := dst.Load(&buf, 16); err != nil {
+		return &mismatch{"load.load", err.Error()}
+	}
+	if err := vh.AssertNextTsAboveAll(dst); err != nil {
+		return &mismatch{"load.nextTsNotAboveStored", err.Error()}
+	}
+	for i := range r.keys {
+		if err := vh.CommitProbeAboveAll(dst, r.key(i+1), []byte("probe-value")); err != nil {
+			return &mismatch{"load.probeCommit", err.Error()}
+		}
+	}
+	r.stats["loadProbe"]++
 	return nil
 }
